@@ -49,10 +49,57 @@ package specs
 //@ func encoding/binary.(bigEndian).Uint16
 //@ requires[room] len(b) >= 2
 //@ pure
-// lexicographical comparison: a total preorder on byte strings (antisymmetry of the sign)
+// lexicographic order on byte strings: cmpS(a, b) is the sign of the comparison (engine builtin: strings are ranked
+// by an injective order embedding into the reals, so the order axioms are arithmetic).  bytes.Compare returns it.
 //@ func bytes.Compare
 //@ pure
 //@ ensures (result < 0) == (bytes.Compare(b, a) > 0) && (result == 0) == (bytes.Compare(b, a) == 0)
+//@ ensures[by-content] result == cmpS(string(a), string(b)) && (result == 0) == (string(a) == string(b))
+
+// ---- pebble iterators: a cursor over a fixed, ordered key space -------------------------------------------
+// itHas(it, k): key k belongs to the key space the iterator ranges over (fixed for the iterator's lifetime).
+// itValid / itKey: whether the cursor is on an entry, and that entry's key.  A seek positions the cursor on the
+// nearest key on the requested side; Next / Prev move to the adjacent key (no key of the space lies strictly
+// between the old and the new position) and keep every bound of the old position.  (Assumed; pebble is not verified.)
+//@ spec itHas(it *pebble.Iterator, k string) bool
+//@ ghost itValid(it *pebble.Iterator) bool
+//@ ghost itKey(it *pebble.Iterator) string
+//@ func github.com/cockroachdb/pebble.(*Iterator).SeekGE
+//@ assigns itValid(i), itKey(i)
+//@ ensures result == itValid(i) && (result ==> cmpS(itKey(i), string(key)) >= 0 && itHas(i, itKey(i)))
+//@ ensures[least-at-or-above] forallT(k, string, itHas(i, k) && cmpS(k, string(key)) >= 0 ==> result && cmpS(k, itKey(i)) >= 0)
+//@ func github.com/cockroachdb/pebble.(*Iterator).SeekLT
+//@ assigns itValid(i), itKey(i)
+//@ ensures result == itValid(i) && (result ==> cmpS(itKey(i), string(key)) < 0 && itHas(i, itKey(i)))
+//@ ensures[greatest-below] forallT(k, string, itHas(i, k) && cmpS(k, string(key)) < 0 ==> result && cmpS(k, itKey(i)) <= 0)
+//@ func github.com/cockroachdb/pebble.(*Iterator).First
+//@ assigns itValid(i), itKey(i)
+//@ ensures result == itValid(i) && (result ==> itHas(i, itKey(i)))
+//@ ensures[least] forallT(k, string, itHas(i, k) ==> result && cmpS(k, itKey(i)) >= 0)
+//@ func github.com/cockroachdb/pebble.(*Iterator).Last
+//@ assigns itValid(i), itKey(i)
+//@ ensures result == itValid(i) && (result ==> itHas(i, itKey(i)))
+//@ ensures[greatest] forallT(k, string, itHas(i, k) ==> result && cmpS(k, itKey(i)) <= 0)
+//@ func github.com/cockroachdb/pebble.(*Iterator).Next
+//@ assigns itValid(i), itKey(i)
+//@ ensures result == itValid(i) && (result ==> itHas(i, itKey(i))) && (result && old(itValid(i)) ==> cmpS(itKey(i), old(itKey(i))) > 0)
+//@ ensures[lower-bounds-kept] forallT(f, string, result && old(itValid(i)) && old(cmpS(itKey(i), f)) >= 0 ==> cmpS(itKey(i), f) > 0)
+//@ ensures[adjacent] forallT(k, string, itHas(i, k) && old(itValid(i)) ==> cmpS(k, old(itKey(i))) <= 0 || (result && cmpS(k, itKey(i)) >= 0))
+//@ func github.com/cockroachdb/pebble.(*Iterator).Prev
+//@ assigns itValid(i), itKey(i)
+//@ ensures result == itValid(i) && (result ==> itHas(i, itKey(i))) && (result && old(itValid(i)) ==> cmpS(itKey(i), old(itKey(i))) < 0)
+//@ ensures[upper-bounds-kept] forallT(f, string, result && old(itValid(i)) && old(cmpS(itKey(i), f)) <= 0 ==> cmpS(itKey(i), f) < 0)
+//@ ensures[adjacent] forallT(k, string, itHas(i, k) && old(itValid(i)) ==> cmpS(k, old(itKey(i))) >= 0 || (result && cmpS(k, itKey(i)) <= 0))
+//@ func github.com/cockroachdb/pebble.(*Iterator).Valid
+//@ assigns nothing
+//@ ensures result == itValid(i)
+//@ func github.com/cockroachdb/pebble.(*Iterator).Key
+//@ assigns nothing
+//@ ensures itValid(i) ==> string(result) == itKey(i)
+//@ func github.com/cockroachdb/pebble.(*Iterator).Value
+//@ assigns nothing
+//@ func github.com/cockroachdb/pebble.(*Iterator).Close
+//@ assigns itValid(i), itKey(i)
 
 // a byte string is at least as long as any of its prefixes
 //@ func bytes.HasPrefix
